@@ -15,10 +15,19 @@
   additionally `nonEmptyMulti` (`okVB`, `okFeatureB`, `okFCB`): no multi-geometry of length 0.
   Where the code falls short of the property the full statement stays visible as a
   `def …_full : Prop` with its refutation next to it.
+
+  Totality (C05 share).  The model has an explicit `.panic` outcome at every place where the Go code
+  dereferences a pointer that a decode can leave nil or indexes a slice (`memberGeometry`,
+  `featureFinishPtr`, `derefGeometry`, `derefCoords`, `bboxAt`); the check the Go code makes before it
+  is a separate `if` in the calling function.  `geometry_total` … `fc_ptr_total`, `bbox_bound_total`
+  therefore state that each check covers its dereference (`members_check_needed`,
+  `feature_check_needed`, `typed_check_needed`, `bbox_check_needed` show the panic behind it).
 -/
 import OrbProofs.C02Lemmas
 import OrbProofs.C02FC
 import OrbProofs.C02Total
+import OrbProofs.C02Typed
+import OrbProofs.C02Nil
 
 namespace Orb.GeoJSON
 
@@ -120,6 +129,23 @@ theorem fc_total (c : Codec) (rawNull : Bool) (j : Json) : (fcOfDoc c rawNull j)
 
 theorem fc_ptr_total (j : Json) : (fcPtrOfDoc j).isPanic = false := fc_ptr_total' j
 
+/-- the three checks are what the theorems above rest on: behind each stands a panic -/
+theorem members_check_needed (ms : List (Option DG)) (h : hasNilMember ms = true) :
+    (membersGeometry ms).isPanic = true := membersGeometry_nil_panics ms h
+
+theorem feature_check_needed : (featureFinishPtr none).isPanic = true := featureFinishPtr_nil_panics
+
+theorem typed_check_needed : (derefCoords none).isPanic = true := derefCoords_nil_panics
+
+/-- no typed helper decoder (`geojson.Point` … `geojson.MultiPolygon`; `k` ranges over their six
+    kinds) panics, whatever the document.  Was FALSE on the pinned tree (JSON `null`: nil
+    `*Geometry` dereferenced) until the `g == nil` check. -/
+theorem typed_total (c : Codec) (k : Kind) (j : Json) : (typedOfDoc c k j).isPanic = false :=
+  typed_total' c k j
+
+/-- the former crash witness: JSON `null` is rejected like `UnmarshalGeometry(null)` -/
+theorem typed_null_rejected (k : Kind) : typedOfDoc .json k .null = .err .invalid := typed_null_rejected' k
+
 /-- the former crash witnesses are now errors / the null feature -/
 theorem null_member_rejected (c : Codec) : geomOfDoc c nullMemberDoc = .err .invalid := null_member_rejected' c
 
@@ -129,7 +155,101 @@ theorem feature_null_member_rejected (c : Codec) :
 
 theorem feature_padded_null : (featureOfDoc .json false .null).isOk = true := feature_padded_null'
 
+/-! ### typed helper types, the decoded `Type` field, bbox.go -/
+
+/-- `geojson.K(x)` round-trips through its own type and is rejected by the five others -/
+theorem typed_roundtrip (c : Codec) (g : G) (k : Kind) (hk : typedKind g = true) (hok : okG g = true)
+    (hb : c = .json ∨ nonEmptyMulti g = true) :
+    typedOfDoc c k (geomDoc c (.val g)) = if g.kind = k then .ok (.val g) else .err .notType :=
+  typed_roundtrip' c g k hk hok hb
+
+/-- the decoded `Geometry.Type` names the kind the value comes back as, which is the "type"
+    member of the document -/
+theorem decoded_type (c : Codec) (g : G) (hok : okG g = true) (hb : c = .json ∨ nonEmptyMulti g = true)
+    (hne : isEmptyColl g = false) :
+    typeOfV (.val (canonG g)) = kindName g.kind ∧
+    ∃ ms, geomDoc c (.val g) = .obj (("type", .str (kindName g.kind)) :: ms) :=
+  ⟨decoded_type' g, doc_type_member c g hok hb hne⟩
+
+/-- `BBox.Bound()` never panics: `Valid()` covers its four index expressions … -/
+theorem bbox_bound_total (bb : Option (List UInt64)) : (bboxBound bb).isPanic = false := bboxBound_total' bb
+
+/-- … each of which panics beyond the length -/
+theorem bbox_check_needed (l : List UInt64) (i : Nat) (h : l.length ≤ i) : (bboxAt l i).isPanic = true :=
+  bboxAt_beyond l i h
+
+/-- `NewBBox(b)` is valid and `NewBBox(b).Bound() = b` (bit-identical); an invalid bbox gives the
+    zero bound -/
+theorem bbox_roundtrip (a b : Pt UInt64) :
+    bboxValid (some (newBBox a b)) = true ∧ bboxBound (some (newBBox a b)) = .ok (a, b) := bbox_newBBox' a b
+
+theorem bbox_invalid_zero (bb : Option (List UInt64)) (h : bboxValid bb = false) :
+    bboxBound bb = .ok (⟨0, 0⟩, ⟨0, 0⟩) := bbox_invalid_zero' bb h
+
+/-! ### values with nil members (`orb.Polygon{nil}`, `orb.Collection{orb.MultiPoint(nil)}`, …) -/
+
+/-- on a value without nil members the marshalling model with nil-ness (`geomDocN`, the one the
+    correspondence run uses) is `geomDoc`: the theorems above speak about it -/
+theorem geomDocN_nilfree (c : Codec) (v : V) (hv : okV v = true) :
+    geomDocN c (CoreNil.ofGVal v) = geomDoc c v := geomDocN_ofGVal c v hv
+
+/-- The round-trip clause over Go values WITH nil members (any nil ring / line / polygon, typed-nil
+    collection members): what `NewGeometry(v)` wrote — `null`s included — decodes (json and bson) to
+    a value denoting the canonical geometry of `v` read with its nil slices as empty ones.
+    (`toGeom` forgets the nil-ness of the decoded TOP-LEVEL slice: `"coordinates":null` comes back
+    as a typed nil.) -/
+theorem geom_roundtrip_nil (c : Codec) (n : NG) (hok : okG (forgetNil n) = true)
+    (hb : c = .json ∨ nonEmptyMulti (forgetNil n) = true) (hne : isEmptyColl (forgetNil n) = false) :
+    ∃ v, geomOfDoc c (geomDocN c n) = .ok v ∧ v.toGeom = canonG (forgetNil n) :=
+  geom_roundtrip_nil' c n hok hb hne
+
+/-- The shape clause over Go values WITH nil members: every such polygon / multi line string /
+    multi polygon / collection with finite coordinates marshals to an RFC 7946 shaped document … -/
+def doc_wellformed_nil_full : Prop :=
+  ∀ n : NG, hasNilIfaceMember n = false → okG (forgetNil n) = true → isEmptyColl (forgetNil n) = false →
+    wellformed (geomDocN .json n) = true
+
+/-- … which is FALSE: a nil ring (line, polygon) is written as `null` inside "coordinates", a typed-nil
+    member of a collection as `"coordinates":null`.  The value still round-trips (nil read as
+    empty), and the same value without nil-ness is written well-formed.
+    Known finding C02-nil-member-null. -/
+theorem doc_wellformed_nil_full_false : ¬ doc_wellformed_nil_full := by
+  intro h
+  have := h (.polygon (some [none])) (by decide) (by decide) (by decide)
+  rw [(nil_ring_doc' .json).2.1] at this
+  cases this
+
+theorem nil_ring_doc (c : Codec) :
+    geomDocN c (.polygon (some [none])) = .obj [("type", .str "Polygon"), ("coordinates", .arr [.null])] ∧
+    wellformed (geomDocN c (.polygon (some [none]))) = false ∧
+    geomOfDoc c (geomDocN c (.polygon (some [none]))) = .ok (.val (.polygon [[]])) ∧
+    wellformed (geomDoc c (.val (forgetNil (.polygon (some [none]))))) = true := nil_ring_doc' c
+
+theorem nil_member_doc :
+    geomDocN .json (.collection [.multiPoint none]) =
+      .obj [("type", .str "GeometryCollection"),
+        ("geometries", .arr [.obj [("type", .str "MultiPoint"), ("coordinates", .null)]])] ∧
+    wellformed (geomDocN .json (.collection [.multiPoint none])) = false ∧
+    geomOfDoc .json (geomDocN .json (.collection [.multiPoint none])) = .ok (.val (.collection [.multiPoint []])) :=
+  nil_member_doc'
+
 /-! ### non-vacuity -/
+
+/-- a multi polygon with a nil polygon and a nil ring satisfies the hypotheses of
+    `geom_roundtrip_nil`, and comes back with both read as empty -/
+example :
+    let n : NG := .multiPolygon (some [none, some [none, some [⟨0, 0⟩]]])
+    okG (forgetNil n) = true ∧ isEmptyColl (forgetNil n) = false ∧ nonEmptyMulti (forgetNil n) = true ∧
+      geomOfDoc .json (geomDocN .json n) = .ok (.val (.multiPolygon [[], [[], [⟨0, 0⟩]]])) := by
+  refine ⟨by decide, by decide, by decide, rfl⟩
+
+/-- the typed totality hypothesis is satisfiable and the theorem says something: a Point document
+    decodes through `geojson.Point` and is refused by `geojson.Polygon` -/
+example :
+    typedOfDoc .json .point (.obj [("type", .str "Point"), ("coordinates", .arr [.num 0, .num 0])]) = .ok (.val (.point ⟨0, 0⟩)) ∧
+    typedOfDoc .bson .polygon (.obj [("type", .str "Point"), ("coordinates", .arr [.num 0, .num 0])]) = .err .notType := by
+  constructor <;> rfl
+
 
 /-- a nested collection with a ring, a bound and a negative zero satisfies the quantifier, and its
     document is the expected one -/
